@@ -140,3 +140,9 @@ STACK_PROGRAMS = [
     "main:\n    li a0, 3\n    call f\n    li a7, 10\n    ecall\nf:\n    addi sp, sp, -16\n    sw s0, 8(sp)\n    sb a0, 8(sp)\n    lw s0, 8(sp)\n    addi sp, sp, 16\n    ret\n",
     "main:\n    li a0, 3\n    call f\n    li a7, 10\n    ecall\nf:\n    addi sp, sp, -16\n    sw ra, 12(sp)\n    sw s0, 8(sp)\n    mv s0, a0\n    sw a0, -4(sp)\n    call g\n    lw t0, -4(sp)\n    add a0, s0, t0\n    lw s0, 8(sp)\n    lw ra, 12(sp)\n    addi sp, sp, 16\n    ret\ng:\n    li t1, 77\n    sw t1, -4(sp)\n    li a0, 1\n    ret\n",
 ]
+
+# programs whose order-sensitive choices straddle a file boundary once cut into an include (C10)
+MULTIFILE_ORDER = [
+    "main:\n    beqz a0, other\n    add a1, t0, t0\n    li a7, 10\n    ecall\nother:\n    add a2, t0, t0\n    li a7, 10\n    ecall\n",
+    "main:\n    call fa\n    call fb\n    li a7, 10\n    ecall\nfa:\n    beqz a0, shared\n    li s1, 1\n    ret\nfb:\n    li s2, 2\nshared:\n    li s3, 3\n    ret\n",
+]
